@@ -112,11 +112,18 @@ static vector<Variant> buildVariants(bool thorough) {
         out.push_back(w);
       }
     }
-    // value lists on plain integer types
-    if (!t.isBits && !t.isFloat && t.builtinDiv == 1 && !t.bcd) {
+    // value lists on integer types - also on types with a built-in divisor (D1C, D2B, D2C, FLT ...): the keys of a
+    // value list are RAW values, a numeric text selects the entry with that key whatever the type's divisor is
+    if (!t.isBits && !t.isFloat && !t.bcd) {
       bool wide = t.bits >= 16;
       Variant v; v.t = &t;
-      if (t.sig) { v.values = "0=off;1=on;100=max"; v.list = {{0, "off"}, {1, "on"}, {100, "max"}}; }
+      if (t.builtinDiv != 1 && t.builtinDiv > 1 && t.builtinDiv != 100 && t.builtinDiv <= t.maxRaw) {
+        // one key equals the built-in divisor: a numeric text scaled like a value of the type would land on another entry
+        int64_t D = t.builtinDiv;
+        v.values = "0=off;1=on;" + std::to_string(D) + "=dd;100=max";
+        v.list = {{0, "off"}, {1, "on"}, {D, "dd"}, {100, "max"}};
+        std::sort(v.list.begin(), v.list.end());
+      } else if (t.sig || t.builtinDiv != 1) { v.values = "0=off;1=on;100=max"; v.list = {{0, "off"}, {1, "on"}, {100, "max"}}; }
       else if (wide) { v.values = "0=off;1=on;254=max;1000=big"; v.list = {{0, "off"}, {1, "on"}, {254, "max"}, {1000, "big"}}; }
       else { v.values = "0=off;1=on;254=max"; v.list = {{0, "off"}, {1, "on"}, {254, "max"}}; }
       out.push_back(v);
